@@ -61,6 +61,8 @@ type ResponderInterceptor struct {
 
 	streams   map[uint32]*localStream
 	streamsMu sync.Mutex
+	closed    bool           // set by Close, guarded by streamsMu
+	resendWg  sync.WaitGroup // resend goroutines that have been started and have not finished
 }
 
 type localStream struct {
@@ -96,7 +98,21 @@ func (n *ResponderInterceptor) BindRTCPReader(reader interceptor.RTCPReader) int
 				continue
 			}
 
-			go n.resendPackets(nack)
+			// a resend goroutine is only started while the interceptor is open, and it is counted under
+			// the mutex Close uses to mark the interceptor closed, so that Close can wait for all of them
+			n.streamsMu.Lock()
+			if n.closed {
+				n.streamsMu.Unlock()
+
+				continue
+			}
+			n.resendWg.Add(1)
+			n.streamsMu.Unlock()
+
+			go func() {
+				defer n.resendWg.Done()
+				n.resendPackets(nack)
+			}()
 		}
 
 		return i, attr, err
@@ -157,9 +173,11 @@ func (n *ResponderInterceptor) UnbindLocalStream(info *interceptor.StreamInfo) {
 	}
 }
 
-// Close releases all resources held by the ResponderInterceptor.
+// Close releases all resources held by the ResponderInterceptor and waits for the resend goroutines
+// that are still running, so that nothing is retransmitted after Close has returned.
 func (n *ResponderInterceptor) Close() error {
 	n.streamsMu.Lock()
+	n.closed = true
 	streams := n.streams
 	n.streams = map[uint32]*localStream{}
 	n.streamsMu.Unlock()
@@ -169,6 +187,9 @@ func (n *ResponderInterceptor) Close() error {
 		stream.rtpBuffer.Clear()
 		stream.rtpBufferMutex.Unlock()
 	}
+
+	// no lock is held here: a resend goroutine takes streamsMu and the buffer mutex of its stream
+	n.resendWg.Wait()
 
 	return nil
 }
